@@ -30,6 +30,9 @@ type QFact struct {
 	// Extra instantiation terms supplied by the creator.
 	Seeds []*Term
 	At    int // length of the path condition when the fact was added
+	// OnlySelect restricts instantiation to indices at which SelectRoot is read.
+	OnlySelect bool
+	SelectRoot *Term
 }
 
 type Env struct {
@@ -652,6 +655,10 @@ func (e *Env) call(n *ast.CallExpr) TV {
 	if sf, ok := specFns[id.Name]; ok {
 		var args []TV
 		for _, a := range n.Args {
+			if bl, ok := a.(*ast.BasicLit); ok && bl.Kind == token.STRING {
+				args = append(args, TV{})
+				continue
+			}
 			args = append(args, e.eval(a))
 		}
 		return sf(e, args, n)
